@@ -556,6 +556,16 @@ def rewrite_body(rf: RepoFile, it: Item, d: FnDirective, rules: dict, info: FnIn
                 continue
         i += 1
 
+    # R1b: `#[cfg(debug_assertions)]` on statements / blocks inside a body is dropped, so that the repository's
+    # debug-only checks are always part of the verified text (their debug_asserts become obligations)
+    for j in range(body_open_idx, len(ct) - 1):
+        if ct[j].kind == 'punct' and ct[j].text == '#' and ct[j + 1].kind == 'punct' and ct[j + 1].text == '[':
+            close = match_close(ct, j + 1)
+            atext = rf.src[ct[j].start:ct[close].end]
+            if re.fullmatch(r'#\[\s*cfg\s*\(\s*debug_assertions\s*\)\s*\]', atext):
+                edits.append(Edit(ct[j].start - base, ct[close].end - base, '', None))
+                rules['R1b'] = rules.get('R1b', 0) + 1
+
     # R5: closure param `_`  ->  `_verif_x`
     for j in range(body_open_idx, len(ct) - 2):
         if ct[j].kind == 'punct' and ct[j].text == '|' and ct[j + 1].kind == 'ident' and ct[j + 1].text == '_' \
